@@ -13,6 +13,7 @@ Adversarial workbooks are pushed through the real Parser while monitors classify
 (linear translations of <=600-character formulas use 10^3..10^5); wall-clock time is only the shard watchdog."""
 import datetime as dt
 import os
+import sys
 import re
 
 import openpyxl
@@ -432,6 +433,31 @@ def whole_book(ctx, bi):
         r.sample({'titles': titles, 'hostile_constants': [wbspec.enc(v) if not isinstance(v, str) else v[:40] for v in list(planted.values())[:6]]})
 
 
+def rewrite_same_second(ctx):
+    """one path, rewritten with another translation of the same length while its modification time (whole seconds) stays the same: what is
+    loaded is the class that is in the file now (with bytecode writing on, the import system would trust the old bytecode file)"""
+    r = ctx.r
+    from excel2pycl import Cell, Parser, Executor
+    d = os.path.join(ctx.workdir, 'rewrite')
+    os.makedirs(d, exist_ok=True)
+    out = os.path.join(d, 'excel_in_python.py')
+    got = []
+    for v in (1, 2, 7):
+        path = wbspec.write(wbspec.spec(wbspec.sheet('S', {'A1': v, 'B1': '=A1+1'})), os.path.join(d, f'b{v}.xlsx'))
+
+        def step():
+            Parser().set_excel_file_path(path).set_entrypoint_cell(Cell('S', 'B', '1')).write_translation(out)
+            os.utime(out, (1700000000, 1700000000))
+            return Executor().set_executed_class(class_file=out).get_cell(Cell('S', 'B', '1')).value
+        o = pipeline.guarded(step, 'evaluate')
+        got.append(o.value if o.ok else o.exc_name)
+    r.ev()
+    r.count('rewrites_within_one_second' + (':bytecode_written' if not sys.dont_write_bytecode else ''))
+    if got != [2, 3, 8]:
+        report(r, ID, None, {'what': 'class file rewritten (same length, same whole-second mtime) and loaded again', 'bytecode_written': not sys.dont_write_bytecode},
+               got, [2, 3, 8], monitor='file-vs-object')
+
+
 def plan(tier, seed):
     q = tier == 'quick'
     sh = [{'kind': 'degenerate'}] + [{'kind': 'nest', 'max': 24 if q else 64, 'part': p, 'parts': 8} for p in range(8)]
@@ -444,6 +470,8 @@ def plan(tier, seed):
         sh.append({'kind': 'args', 'part': k, 'parts': 8})
     # the same whole-workbook workload (hostile titles and constants, file vs class object) in an interpreter whose locale
     # encoding is not UTF-8: what is written and what is read back must not depend on it
+    # ... and in an interpreter that writes bytecode files, as most programs do (the harness itself runs with PYTHONDONTWRITEBYTECODE)
+    sh.append({'kind': 'whole', 'n': 4 if q else 40, 'k': 200, '_env': {'VERIF_WRITE_BYTECODE': '1'}})
     for k in range(2 if q else 4):
         sh.append({'kind': 'whole', 'n': 6 if q else 60, 'k': 100 + k, 'ascii_locale': True,
                    '_env': {'LC_ALL': 'C', 'LANG': 'C', 'PYTHONUTF8': '0', 'PYTHONCOERCECLOCALE': '0'}})
@@ -525,6 +553,7 @@ def run_shard(shard, ctx):
         if shard['k'] == 0:
             r.sample({'soups': [t for t, h in items if h == 'soup'][:8], 'splices': [t for t, h in items if h == 'splice'][:5]})
     elif k == 'whole':
+        rewrite_same_second(ctx)
         for i in range(shard['n']):
             whole_book(ctx, shard['k'] * 1000 + i)
 
